@@ -66,6 +66,9 @@ static thrd_ret_t THREAD_CALL_CONV parallel_thread_run(void *rid_arg)
 		mpi_remote_msg_handle();
 
 		unsigned i = 64;
+#ifdef ROOTSIM_VERIF
+		i = verif_batch(i);
+#endif
 		while(i--)
 			process_msg();
 
